@@ -70,3 +70,33 @@ Proof.
   injection Ht as Hn Hr Hc.
   eexists _, _, _, _, _. repeat split; try eassumption; congruence.
 Qed.
+
+(* the same for the streaming reader: the name of a streamed entry is decoded from the LOCAL header's name bytes by the
+   local header's own flag bit *)
+From ZipV Require Import Model.Stream.
+Theorem stream_text data pos e :
+  stream_next data pos = Ok (SFile e) ->
+  exists flags nl,
+    u16_at data (pos + 6) = Ok flags /\ u16_at data (pos + 26) = Ok nl /\
+    rd_at data (pos + 30) nl = Ok (f_name_raw (se_file e)) /\
+    f_name (se_file e) = decode_text (N.testbit flags 11) (f_name_raw (se_file e)).
+Proof.
+  unfold stream_next. intro H.
+  destruct (u32_at data pos) as [sig| |]; cbn [bind] in H; try discriminate.
+  destruct (sig =? CENTRAL_DIRECTORY_HEADER_SIGNATURE); [discriminate|].
+  destruct (negb (sig =? LOCAL_FILE_HEADER_SIGNATURE)); [discriminate|].
+  repeat match type of H with
+  | bind ?X _ = Ok _ => let v := fresh "v" in let E := fresh "E" in destruct X as [v| |] eqn:E; cbn [bind] in H; [|discriminate|discriminate]
+  end.
+  match type of H with context [parse_extra_field ?F0] =>
+    pose proof (parse_extra_texts (S (N.to_nat (len (f_extra F0)))) F0 0) as Ht;
+    fold (parse_extra_field F0) in Ht; destruct (parse_extra_field F0) as [f1 r] eqn:Ep end.
+  cbn [fst] in Ht.
+  repeat match type of H with
+  | bind ?X _ = Ok _ => let v := fresh "v" in destruct X as [v| |]; cbn [bind] in H; [|discriminate|discriminate]
+  | (if ?c then Err _ else _) = Ok _ => destruct c; [discriminate|]
+  end.
+  injection H as <-. cbn [se_file].
+  unfold texts in Ht. cbn [f_name f_name_raw f_comment] in Ht. injection Ht as Hn Hr Hc.
+  eexists _, _. repeat split; try eassumption; congruence.
+Qed.
